@@ -283,13 +283,14 @@ def _sym_percent(self, other):
                 spec = "%" + (flags or "") + (width or "") + ("." + prec if prec else "") + conv
                 pieces.append(spec % (deep_realize(val),))
         pieces.append(tmpl[pos:])
-    out = ""
+    rendered = []
     for p in pieces:
         if isinstance(p, tuple):
-            out = out + str(p[1])
+            rendered.append(str(p[1]))
         else:
-            out = out + p
-    return out
+            rendered.append(p)
+    with NoTracing():
+        return make_template(rendered)
 
 
 def _install_percent():
@@ -457,3 +458,180 @@ def install():
     _install_attr_tracing()
     _install_new_patches()
     install_normpath()
+
+
+# ---------------------------------------------------------------------------------------------
+# SymTemplate + skeleton parse: XML templates into which symbolic values were formatted
+# ---------------------------------------------------------------------------------------------
+
+
+class SymTemplate(bl.LazyIntSymbolicStr):
+    """Result of `%`-formatting or an f-string with symbolic arguments: remembers its pieces
+    (literal str / symbolic value) so that pxml can parse the literal skeleton concretely and
+    put the symbolic values back into the tree.  Any other string operation expands it to code
+    points like an ordinary symbolic string."""
+
+    def __init__(self, pieces):
+        self.__dict__["_pieces"] = pieces
+        self.__dict__["_cp"] = None
+
+    @property
+    def _codepoints(self):
+        cp = self.__dict__["_cp"]
+        if cp is None:
+            with ResumedTracing():
+                acc = ""
+                for p in self.__dict__["_pieces"]:
+                    acc = acc + p
+            with NoTracing():
+                cp = list(map(ord, acc)) if type(acc) is str else acc._codepoints
+                self.__dict__["_cp"] = cp
+        return cp
+
+    @_codepoints.setter
+    def _codepoints(self, v):
+        self.__dict__["_cp"] = v
+
+
+def make_template(pieces):
+    """pieces: list of str / symbolic str (already rendered). Merges adjacent literals."""
+    out = []
+    for p in pieces:
+        if type(p) is str:
+            if p == "":
+                continue
+            if out and type(out[-1]) is str:
+                out[-1] = out[-1] + p
+                continue
+        elif isinstance(p, SymTemplate):
+            for q in p.__dict__["_pieces"]:
+                if type(q) is str and out and type(out[-1]) is str:
+                    out[-1] = out[-1] + q
+                else:
+                    out.append(q)
+            continue
+        out.append(p)
+    if all(type(p) is str for p in out):
+        return "".join(out)
+    return SymTemplate(out)
+
+
+_TOK_OPEN, _TOK_CLOSE = "\ue000", "\ue001"
+_TOK_RE = re.compile("\ue000(\\d+)\ue001")
+parse_stats = {"skeleton": 0, "fallback_realized": 0}
+
+
+def _subst(value, holes):
+    """Replace tokens in a parsed attribute value / text by the symbolic pieces."""
+    parts = _TOK_RE.split(value)  # [lit, idx, lit, idx, ..., lit]
+    if len(parts) == 3 and parts[0] == "" and parts[2] == "":
+        return holes[int(parts[1])]
+    with ResumedTracing():
+        acc = ""
+        for i, p in enumerate(parts):
+            acc = acc + (holes[int(p)] if i % 2 else p)
+    return acc
+
+
+def _hole_is_plain(hole, ctx_bad):
+    """Traced scan: True when the symbolic run contains no character that the XML parser would
+    treat specially in its context (markup, delimiter, or white space subject to normalisation)."""
+    with ResumedTracing():
+        for ch in hole:
+            if ch in ctx_bad:
+                return False
+        if "]]>" in hole:
+            return False
+    return True
+
+
+def _skeleton_parse(text, parser):
+    """pxml parse hook. Returns None to let pxml parse `text` concretely."""
+    with NoTracing():
+        if not isinstance(text, core.CrossHairValue):
+            return None
+        if not isinstance(text, SymTemplate):
+            parse_stats["fallback_realized"] += 1
+            return lxml_etree._parse_concrete(realize(text), parser)
+        pieces = text.__dict__["_pieces"]
+        holes = []
+        skel = []
+        for p in pieces:
+            if type(p) is str:
+                skel.append(p)
+            else:
+                skel.append("%s%d%s" % (_TOK_OPEN, len(holes), _TOK_CLOSE))
+                holes.append(p)
+        skeleton = "".join(skel)
+        # context of each hole, from the skeleton text: inside an attribute value or in content
+        plain = True
+        for i, h in enumerate(holes):
+            if isinstance(h, DecStr):
+                continue
+            pos = skeleton.index("%s%d%s" % (_TOK_OPEN, i, _TOK_CLOSE))
+            lt, gt = skeleton.rfind("<", 0, pos), skeleton.rfind(">", 0, pos)
+            if lt > gt:  # inside a tag -> attribute value; find its delimiter
+                seg = skeleton[lt:pos]
+                dq, sq = seg.count('"'), seg.count("'")
+                delim = '"' if dq % 2 == 1 else ("'" if sq % 2 == 1 else None)
+                if delim is None:
+                    plain = False
+                    break
+                bad = "<&\t\n\r" + delim
+            else:
+                bad = "<&\r"
+            if not _hole_is_plain(h, bad):
+                plain = False
+                break
+        if not plain:
+            parse_stats["fallback_realized"] += 1
+            return lxml_etree._parse_concrete(realize(text), parser)
+        parse_stats["skeleton"] += 1
+        root = lxml_etree._parse_concrete(skeleton, parser)
+        for e in root.iter():
+            d = e.__dict__
+            ad = d["_px_attrib"]._d
+            for k, v in list(ad.items()):
+                if _TOK_OPEN in v:
+                    ad[k] = _subst(v, holes)
+            t = d["_px_text"]
+            if t is not None and _TOK_OPEN in t:
+                d["_px_text"] = _subst(t, holes)
+            t = d["_px_tail"]
+            if t is not None and _TOK_OPEN in t:
+                d["_px_tail"] = _subst(t, holes)
+        return root
+
+
+lxml_etree = None
+
+
+def install_parse_hook():
+    global lxml_etree
+    import lxml.etree as le
+
+    assert getattr(le, "__stub__", None) == "pxml"
+    lxml_etree = le
+    le._parse_hook = _skeleton_parse
+
+    # f-strings: keep the pieces
+    from crosshair import opcode_intercept as oi
+    from crosshair.tracers import COMPOSITE_TRACER, frame_stack_read, frame_stack_write
+
+    def trace_op(self, frame, codeobj, codenum):
+        count = oi.frame_op_arg(frame)
+        pieces = []
+        for offset in range(-(count), 0):
+            substr = frame_stack_read(frame, offset)
+            if not isinstance(substr, (str, bl.AnySymbolicStr)):
+                raise oi.CrossHairInternal
+            pieces.append(substr)
+            frame_stack_write(frame, offset, "")
+        real_result = make_template(pieces)
+
+        def post_op():
+            frame_stack_write(frame, -1, real_result)
+
+        COMPOSITE_TRACER.set_postop_callback(post_op, frame)
+
+    oi.BuildStringInterceptor.trace_op = trace_op
